@@ -375,7 +375,7 @@ func (p *parser) validateBinaryType(binaryExp *BinaryExpression) bool {
 
 	leftType := binaryExp.Left.Type()
 	rightType := binaryExp.Right.Type()
-	if !(leftType.matches(rightType) || (leftType.Name == ARRAY && op == OP_ASTERISK)) {
+	if leftType == NONE_TYPE || !(leftType.matches(rightType) || (leftType.Name == ARRAY && op == OP_ASTERISK)) {
 		msg := fmt.Sprintf("mismatched type for %s: %s, %s", op, leftType, rightType)
 		p.appendErrorForToken(msg, tok)
 		return false
@@ -447,9 +447,14 @@ func (p *parser) parseArrayLiteral() Node {
 	elements := []Node{}
 	tt := p.cur.TokenType()
 	for tt != lexer.RBRACKET && tt != lexer.EOF {
+		elTok := p.cur
 		n := p.parseExprWSS()
 		if n == nil {
 			return nil // previous error
+		}
+		if n.Type() == NONE_TYPE {
+			p.appendErrorForToken("invalid array element, "+n.String()+" has no value", elTok)
+			return nil
 		}
 		elements = append(elements, n)
 		multi = append(multi, multilineEl)
@@ -546,9 +551,14 @@ func (p *parser) parseMapPairs(mapLit *MapLiteral) bool {
 		p.assertToken(lexer.COLON)
 		p.advance() // advance past COLON
 
+		valTok := p.cur
 		n := p.parseExprWSS()
 		if n == nil {
 			return false // previous error
+		}
+		if n.Type() == NONE_TYPE {
+			p.appendErrorForToken("invalid map value, "+n.String()+" has no value", valTok)
+			return false
 		}
 		mapLit.Pairs[key] = n
 		mapLit.Order = append(mapLit.Order, key)
